@@ -12,7 +12,8 @@ from hsverif.family import Family, merge_stats, run_family
 from props import engine_script as es
 
 LEVEL = "proof"
-FILES = ["Engine/Engine.v", "Engine/Script.v", "Engine/EngineProofs.v", "Engine/ScriptProofs.v", "C01/Props.v"]
+FILES = ["Engine/Engine.v", "Engine/Script.v", "Engine/EngineProofs.v", "Engine/ScriptProofs.v",
+         "Base/PyLib.v", "Gen/EventGen.v", "C01/GenTie.v", "C01/Props.v"]
 
 
 def gen(rng):
@@ -114,11 +115,17 @@ TRUSTED = [
     "Python generator protocol / yield from (scripts are inlined in the model)",
     "float seconds -> ns conversion int(d*1e9) of Instant.__add__ is computed by the harness and handed to the model in ns",
     "harness/props/engine_script.py: script generator, real-Entity interpreter, pop instrumentation, encoder",
+    "translator harness/translate/py2coq.py + declared types (py2coq_targets.py EventGen): Event.__lt__ is regenerated from core/event.py on every run and proved equal to the model's heap order",
 ]
 
 
 def run(ctx):
+    from props import pygen
+    ok, info = pygen.regenerate("EventGen")      # Event.__lt__ translated from $HS_REPO by py2coq
+    ctx.coverage["regenerated"] = info
     ctx.prove(FILES, allowed_axioms=(), trusted_base=TRUSTED)
+    if not ok and ctx.pending_obligation_violation:
+        ctx.pending_obligation_violation["translator"] = info.get("error")
     stats = [run_family(ctx, FAM, ctx.n(600, 12000))]
     merge_stats(ctx, stats, "random scripts: 1-5 entities, <=12 pre-run events over <=4 timestamps (ties), immediate and generator handlers, futures, cancellations, daemon events, crashed targets, end_time none/tie/between; non-trivial = >=3 pops; distinct by JSON")
     ctx.finish_obligations()
